@@ -174,6 +174,16 @@ void ctx_store_init(void)
     cache_init(&cache);
 }
 
+/* The items are hashed back to back: each string goes in with its
+   length, so that the boundary between two items cannot move. */
+static void hash_str(const char *str, EVP_MD_CTX *ctx)
+{
+    size_t len = strlen(str);
+
+    EVP_DigestUpdate(ctx, &len, sizeof(len));
+    EVP_DigestUpdate(ctx, str, len);
+}
+
 static int do_hash_file(const char *file, EVP_MD_CTX *ctx, bool follow,
 			void *log_ref)
 {
@@ -187,7 +197,7 @@ static int do_hash_file(const char *file, EVP_MD_CTX *ctx, bool follow,
 	return -1;
     }
 
-    EVP_DigestUpdate(ctx, file, strlen(file));
+    hash_str(file, ctx);
     EVP_DigestUpdate(ctx, &statbuf.st_dev, sizeof(statbuf.st_dev));
     EVP_DigestUpdate(ctx, &statbuf.st_ino, sizeof(statbuf.st_ino));
     EVP_DigestUpdate(ctx, &statbuf.st_size, sizeof(statbuf.st_size));
@@ -209,13 +219,17 @@ static int hash_file(const char *file, EVP_MD_CTX *ctx, void *log_ref)
 
 static int hash_value(const char *value, EVP_MD_CTX *ctx)
 {
-    EVP_DigestUpdate(ctx, value, strlen(value));
+    hash_str(value, ctx);
 
     return 0;
 }
 
 static int hash_item(const struct item *item, EVP_MD_CTX *ctx, void *log_ref)
 {
+    /* absent, by file and by value are different designations */
+    int type = item->type;
+    EVP_DigestUpdate(ctx, &type, sizeof(type));
+
     switch (item->type) {
     case item_type_none:
 	return 0;
